@@ -45,9 +45,30 @@ CHECK_RE = re.compile(r'^Check (\d+): (\S+)\n\s+- Status: (\w+)\n\s+- Descriptio
 
 
 def parse_kani(out):
+    """line-based parse of Kani's per-check table (check ids may contain spaces, descriptions may
+    contain quotes)"""
     checks = []
-    for m in re.finditer(r'Check (\d+): (\S+)\s*\n\s*- Status: (\w+)\s*\n\s*- Description: "((?:[^"\\]|\\.)*)"\s*\n\s*- Location: ([^\n]*)', out):
-        checks.append(dict(id=m.group(2), status=m.group(3), desc=m.group(4), loc=m.group(5).strip()))
+    cur = None
+    for ln in out.split('\n'):
+        m = re.match(r'^Check (\d+): (.*)$', ln)
+        if m:
+            cur = dict(id=m.group(2).strip(), status=None, desc='', loc='')
+            checks.append(cur)
+            continue
+        if cur is None:
+            continue
+        t = ln.strip()
+        if t.startswith('- Status:'):
+            cur['status'] = t[len('- Status:'):].strip()
+        elif t.startswith('- Description:'):
+            d = t[len('- Description:'):].strip()
+            if len(d) >= 2 and d[0] == '"' and d[-1] == '"':
+                d = d[1:-1]
+            cur['desc'] = d
+        elif t.startswith('- Location:'):
+            cur['loc'] = t[len('- Location:'):].strip()
+            cur = None
+    checks = [c for c in checks if c['status']]
     summary = re.search(r'\*\* (\d+) of (\d+) failed', out)
     verdict = re.search(r'VERIFICATION:- (\w+)', out)
     t = re.search(r'Verification Time: ([\d.]+)s', out)
@@ -89,6 +110,16 @@ def run_harness(ws, cfg, h, log_dir):
         ob['detail'] = out[-3000:]
         return ob
     failed = [c for c in checks if c['status'] == 'FAILURE' and not any(i in c['desc'] or i in c['id'] for i in ignore)]
+    n_fail_parsed = len([c for c in checks if c['status'] == 'FAILURE'])
+    if summary and summary[0] != n_fail_parsed:
+        # the table parse disagrees with Kani's own summary line: never report success
+        ob['kind'] = 'tool-error'
+        ob['detail'] = 'parsed %d FAILURE checks but Kani reports %d of %d failed\n%s' % (n_fail_parsed, summary[0], summary[1], out[-1500:])
+        return ob
+    if verdict == 'FAILED' and not summary:
+        ob['kind'] = 'oom' if oom else 'tool-error'
+        ob['detail'] = out[-2000:]
+        return ob
     undet = [c for c in checks if c['status'] in ('UNDETERMINED',)]
     unreachable_cover = [c for c in checks if c['status'] in ('UNSATISFIABLE',) and 'cover' in c['id']]
     if oom and not checks:
